@@ -42,6 +42,8 @@ func (o mop) String() string {
 		return "SaveChanges(cancelled context)"
 	case 'H':
 		return "GetAllMissingNodes"
+	case 'L':
+		return "GetDeletes"
 	case 'X':
 		return "GetChanges"
 	case 'M':
@@ -55,6 +57,7 @@ type c16 struct {
 	layered   bool
 	pre       [][2]string // initial content
 	dropNode  string      // path whose leaf node is deleted from the store before the threads start ("" = none)
+	syncDead  []int       // before the threads start: one MergeDB per entry, each handing over that many dead nodes (a sync), after one local delete
 	warm      bool        // the trie reads through a transaction cache whose block/state cache holds the nodes (committed by the previous block)
 	scripts   [][]mop
 }
@@ -129,6 +132,20 @@ func (c c16) build() *mworld {
 		w.t = util.NewMerklePatriciaTrie(w.db, 1, t0.GetRoot(), statecache.NewEmpty())
 		if c.dropNode != "" {
 			dropLeaf(w.db, t0, c.dropNode)
+		}
+	}
+	if len(c.syncDead) > 0 {
+		_, _ = w.t.Delete(util.Path("1c00")) // a local delete: the collector's own delete set is not empty
+		n := 0
+		for _, cnt := range c.syncDead {
+			var dead []util.Node
+			for i := 0; i < cnt; i++ {
+				n++
+				dead = append(dead, util.NewLeafNode(util.Path("dd"), util.Path(fmt.Sprintf("%04x", n)), 1, &util.SecureSerializableValue{Buffer: []byte{byte(n)}}))
+			}
+			if err := w.t.MergeDB(util.NewMemoryNodeDB(), w.t.GetRoot(), dead); err != nil {
+				panic(err)
+			}
 		}
 	}
 	for _, sc := range c.scripts {
@@ -220,6 +237,14 @@ func (w *mworld) do(o mop) string {
 			w.kids = map[string]*util.MerklePatriciaTrie{}
 		}
 		return fmt.Sprint(w.t.MergeMPTChanges(w.kids[o.P]))
+	case 'L':
+		// the delete set (local deletes plus dead nodes taken over by syncs); the caller keeps what it gets
+		ds := w.t.GetDeletes()
+		sum := summariseChanges(nil, ds)
+		w.heldMu.Lock()
+		w.held = append(w.held, heldChanges{nil, ds, sum})
+		w.heldMu.Unlock()
+		return sum
 	case 'X':
 		// root, change set, delete set and start root must belong to one instant
 		root, changes, deletes, start := w.t.GetChanges()
@@ -387,6 +412,8 @@ func C16Scenarios() []sched.Scenario {
 			{name: "Iterate||Iterate", doc: "two full iterations at the same time (read-only users of one trie): each handler sees every path with its own value", scripts: [][]mop{{{'T', "", ""}}, {{'T', "", ""}, {'G', "1c00", ""}}}},
 			{name: "W||GetChanges", doc: "writer || GetChanges (root, changes and deletes of one instant)", scripts: [][]mop{{{'I', "0a1d", "x"}, {'D', "0b22", ""}}, {{'X', "", ""}}}},
 			{name: "W||GetChanges-kept", doc: "a writer rewriting keys (the change set does not grow) || a reader that keeps the sets GetChanges returned while it asks again: what was returned stays what it was", scripts: [][]mop{{{'I', "0a1b", "x"}, {'X', "", ""}, {'I', "0a1b", "y"}}, {{'X', "", ""}, {'X', "", ""}}}},
+			{name: "GetDeletes||GetDeletes-after-syncs", doc: "two readers of the delete set of a trie that took dead nodes over in two syncs (5, then 3) and in one of 17; each keeps what it was given", syncDead: []int{5, 3}, scripts: [][]mop{{{'L', "", ""}, {'L', "", ""}}, {{'L', "", ""}, {'G', "0a1b", ""}}}},
+			{name: "GetDeletes||GetDeletes-after-sync-of-17", doc: "the same after one sync handing over 17 dead nodes", syncDead: []int{17}, scripts: [][]mop{{{'L', "", ""}}, {{'L', "", ""}, {'L', "", ""}}}},
 			{name: "W||change-count", doc: "writer || GetChangeCount", scripts: [][]mop{{{'I', "0a1d", "x"}, {'I', "0a1e", "y"}}, {{'C', "", ""}, {'C', "", ""}}}},
 			{name: "W||Save||R", doc: "writer || SaveChanges || reader", scripts: [][]mop{{{'I', "0a1d", "x"}}, {{'S', "", ""}}, {{'G', "0a1d", ""}}}},
 			// (saves that fail are exercised in the free-running pass only, see failingSaves in stress.go: the error path of
